@@ -12,7 +12,11 @@ _m(
     "(periodic pairs iff wrap_around) is frac*pi, frac in [0.05, 0.95], plus an offset in [-pi, pi] x route (direct "
     "unwrap_phase_2d_torch with float32/float64 input, wrapped or already-unwrapped, outside-mask values = field/zeros/"
     "noise | unwrap_bf_overlap_phase_torch on complex64 data embedded through bf_mask/mask_bf, one or two passes, "
-    "wrap_around default or explicit); six strata (no mask / masked wrapped / masked already-unwrapped / bf route / seam / Poisson) each get their own "
+    "wrap_around default or explicit) x MEMORY LAYOUT of every array handed over (same values and shape: C-contiguous | "
+    "Fortran-strided via x.t().contiguous().t() | torch.from_numpy(np.asfortranarray(x)) | strided slice big[::2, ::2] | "
+    "inner slice big[:, 1:-1] | 3-D permute-and-select view | for an all-True mask a stride-0 expand view; backing storage "
+    "outside the view is NaN/True filler; 1-D bf vectors: contiguous | big[::2] | big[1:-1]; drawn independently for the "
+    "phase, the mask, bf_mask, complex_data_bf and mask_bf; classes layout:<arg>=<layout>); six strata (no mask / masked wrapped / masked already-unwrapped / bf route / seam / Poisson) each get their own "
     "run; the seam stratum draws periodic grids (wrap_around=True) that are thin (1xW, 2xW, Hx1, Hx2; four in six), narrow "
     "(3xW, Hx3) or regular (8..18 square-ish), long side >= 8, with band masks - a band of columns and/or rows that does not "
     "touch the border is removed (plus up to 2 single-pixel holes), so the remaining strips are connected only through the "
@@ -32,6 +36,8 @@ _m(
         "quantem adds float32(2*pi*k); measured clean-tree error <= 1.3e-6*(1+max|k|); a wrong unwrap is off by 2*pi",
         "values outside the mask are finite (wrapped field, zeros as the real caller passes, or noise); for already-"
         "unwrapped input they stay within the in-mask value range so the global-mean subtraction cannot cancel in float32",
+        "the result is a function of the values only: every layout is checked by the harness to hold exactly the same "
+        "values (torch.equal) before the call, and the oracle is the same for all layouts",
         "no claim is checked on pixels outside the mask; the Poisson solver is outside the exactness claim",
     ],
     workers=(1, 16),
